@@ -125,6 +125,9 @@ def st_packet(tier):
         else:
             c.update({"n": draw(st.integers(2, 4)), "lens": [draw(st.integers(1, 3)) for _ in range(4)],
                       "gaps": [draw(st.sampled_from([0, 0, 0, 1])) for _ in range(4)], "one_hot": draw(st.booleans())})
+            # dispatcher: the selector designates slave 1, or (one-hot 0 / binary 3 of 3) no slave at all - packets for nobody are
+            # discarded, they must not block the producer
+            c["nosel"] = kind == "dispatcher" and (c["one_hot"] or c["n"] == 3) and draw(st.integers(0, 2)) == 0
         return c
     return case()
 
@@ -243,7 +246,10 @@ def run_packet(case):
     prod = bench.Producer(master, [], ["const", 1], endless=endless)
     conss = [bench.Consumer(sl, case["cs"], until=40) for sl in slaves]
     enc = (lambda v: 1 << v) if case["one_hot"] else (lambda v: v)
-    drv = bench.Driver(lambda t: {dut.sel: enc(1 % n)})
+    selv = (0 if case["one_hot"] else n) if case.get("nosel") else enc(1 % n)
+    if case.get("nosel"):
+        cls = cls + ["selector-designates-no-slave"]
+    drv = bench.Driver(lambda t: {dut.sel: selv})
     cyc = bench.run(dut, [prod, drv] + conss, T)
     for j, co in enumerate(conss):
         if co.hold_violations:
